@@ -167,8 +167,31 @@ class C16(LineCheck):
         st["pmres"], st["pires"] = ps["pmres"], ps["pires"]
         self.ptr_ops += ps["ops"]
         self.ptr_cases += ps["cases_equal"]
+        if len(cases) > 10:
+            why = self.big_stage(ctx)
+            if why:
+                st["crashes"].append((0, why))
         self.last_st = st
         return st
+
+    def big_stage(self, ctx):
+        """large populations on the real code (harness/avl_big.c): 70000 ascending inserts, deletions, 200000 mixed
+        operations, drain, with full structural checks (recorded = real heights, balance, height bound, traversals)"""
+        import subprocess
+        import runner
+        d = os.path.join(ctx.work, "avlbig")
+        ok, out = vlib.cc_build(d, "avl_big", ["avl_big.c"], ["iv_avl"], ldflags=["-lm"])
+        if not ok:
+            return "avl_big does not build: " + out[-600:]
+        try:
+            p = subprocess.run([os.path.join(d, "avl_big")], stdout=subprocess.PIPE, stderr=subprocess.PIPE, text=True,
+                               errors="replace", timeout=300, env=dict(os.environ, **runner.ASAN_ENV))
+        except subprocess.TimeoutExpired:
+            return "avl_big (large populations on the real iv_avl.c): timeout"
+        self.big_result = p.stdout.strip()
+        if p.returncode != 0 or not p.stdout.startswith("OK"):
+            return "avl_big (large populations on the real iv_avl.c, 70000 nodes): %s %s" % (p.stdout.strip(), p.stderr[-600:])
+        return None
 
     def replay(self, ctx, path):
         rc = LineCheck.replay(self, ctx, path)
